@@ -67,6 +67,16 @@ class Rng(random.Random):
 # --------------------------------------------------------------------------
 
 
+class CorrespondenceBroken(Exception):
+    """The implementation stopped behaving as the model does in a way that ends the suite (e.g. it raises while the
+    inputs are being set up): reported as a violation without a failing input, not as a tool failure."""
+
+    def __init__(self, what, detail=None):
+        super().__init__(what)
+        self.what = what
+        self.detail = detail or {}
+
+
 class LeanFailure(Exception):
     def __init__(self, what, log=""):
         super().__init__(what)
